@@ -570,6 +570,13 @@ func runRegRandom(o *Out, rng *rand.Rand) {
 			if e.status < 2 && rng.Intn(2) == 0 {
 				e.done = append(e.done, RegOp{"status", e.status + 1, 0})
 				e.setStatus(e.status + 1)
+			} else if rng.Intn(5) == 0 {
+				// SetStatus takes any status. The statuses are stages of a life cycle (pending, normal, after
+				// the registration deadline): the same one again and pending -> after the deadline are played,
+				// steps back are not (outside the domain; see DESIGN.md section 11)
+				s := e.status + rng.Intn(3-e.status)
+				e.done = append(e.done, RegOp{"status", s, 0})
+				e.setStatus(s)
 			}
 		case r == 8:
 			// a table the regulator does not know
